@@ -1,8 +1,292 @@
-//! C17 blocking pool bounded and loses nothing (runtime level) — not built yet.
+//! C17 (runtime level) — the blocking pool is bounded and loses nothing.
+//!
+//! 1–4 runtimes (threads), each with its own proactor but sharing one
+//! `AsyncifyPool`, submit blocking jobs through `spawn_blocking` and through
+//! thread-pool-routed operations. Every job has an id; on entry it bumps a
+//! global `running` gauge (recording the maximum and its OS thread), on exit
+//! it decrements it. Oracle: every submitted job ran exactly once; its own
+//! result (or its own panic payload) reaches its own submitter; the gauge
+//! never exceeds the pool's thread limit; after the idle timeout the workers
+//! have retired (thread census) and a later job still runs.
 
-use vcommon::Args;
+use std::{
+    collections::HashSet,
+    sync::{
+        Arc, Mutex,
+        atomic::{AtomicUsize, Ordering},
+    },
+    time::{Duration, Instant},
+};
 
-pub fn main(_args: &Args) {
-    eprintln!("c17: not implemented");
-    std::process::exit(3);
+use compio_driver::{AsyncifyPool, DriverType, ProactorBuilder};
+use compio_runtime::{JoinError, Runtime};
+use vcommon::{Args, Report, Rng, Value, json, panics};
+
+#[derive(Debug, Clone)]
+struct Prog {
+    driver: &'static str,
+    limit: usize,
+    idle_ms: u64,
+    runtimes: usize,
+    jobs: usize,
+    /// job body: 0 immediate, 1 spin 50us, 2 sleep 1ms, 3 panic
+    bodies: Vec<u8>,
+    idle_phase: bool,
+}
+
+impl Prog {
+    fn to_json(&self) -> Value {
+        json!({"driver": self.driver, "limit": self.limit, "idle_ms": self.idle_ms, "runtimes": self.runtimes,
+               "jobs": self.jobs, "bodies": self.bodies, "idle_phase": self.idle_phase})
+    }
+
+    fn from_json(v: &Value) -> Option<Prog> {
+        Some(Prog {
+            driver: if v["driver"].as_str()? == "poll" { "poll" } else { "iour" },
+            limit: v["limit"].as_u64()? as usize,
+            idle_ms: v["idle_ms"].as_u64()?,
+            runtimes: v["runtimes"].as_u64()? as usize,
+            jobs: v["jobs"].as_u64()? as usize,
+            bodies: v["bodies"].as_array()?.iter().filter_map(|x| x.as_u64().map(|x| x as u8)).collect(),
+            idle_phase: v["idle_phase"].as_bool().unwrap_or(false),
+        })
+    }
+}
+
+fn generate(rng: &mut Rng, driver: &'static str) -> Prog {
+    let jobs = rng.range(1, 60);
+    Prog {
+        driver,
+        limit: rng.range(1, 8),
+        idle_ms: *rng.pick(&[5u64, 20, 50]),
+        runtimes: rng.range(1, 4),
+        jobs,
+        bodies: (0..jobs).map(|_| *rng.pick(&[0u8, 0, 1, 1, 2, 3])).collect(),
+        idle_phase: rng.chance(1, 3),
+    }
+}
+
+struct Gauge {
+    running: AtomicUsize,
+    max: AtomicUsize,
+    runs: Mutex<Vec<usize>>,
+    threads: Mutex<HashSet<u64>>,
+}
+
+fn tid() -> u64 {
+    unsafe { libc::gettid() as u64 }
+}
+
+fn thread_count() -> usize {
+    std::fs::read_dir("/proc/self/task").map(|d| d.count()).unwrap_or(0)
+}
+
+fn run_prog(p: &Prog) -> Result<(Vec<(String, String)>, String), String> {
+    let pool = AsyncifyPool::new(p.limit, Duration::from_millis(p.idle_ms));
+    let gauge = Arc::new(Gauge {
+        running: AtomicUsize::new(0),
+        max: AtomicUsize::new(0),
+        runs: Mutex::new(vec![0; p.jobs]),
+        threads: Mutex::new(HashSet::new()),
+    });
+    let threads_before = thread_count();
+    let viol: Arc<Mutex<Vec<(String, String)>>> = Arc::new(Mutex::new(Vec::new()));
+    let mut hs = Vec::new();
+    for r in 0..p.runtimes {
+        let pool = pool.clone();
+        let gauge = gauge.clone();
+        let viol = viol.clone();
+        let p = p.clone();
+        hs.push(std::thread::spawn(move || -> Result<(), String> {
+            let mut pb = ProactorBuilder::new();
+            pb.driver_type(if p.driver == "poll" { DriverType::Poll } else { DriverType::IoUring });
+            pb.reuse_thread_pool(pool);
+            let rt = Runtime::builder().with_proactor(pb).build().map_err(|e| e.to_string())?;
+            rt.block_on(async {
+                let mut handles = Vec::new();
+                for j in (r..p.jobs).step_by(p.runtimes) {
+                    let gauge = gauge.clone();
+                    let body = p.bodies[j];
+                    handles.push((j, body, compio_runtime::spawn_blocking(move || {
+                        let now = gauge.running.fetch_add(1, Ordering::SeqCst) + 1;
+                        gauge.max.fetch_max(now, Ordering::SeqCst);
+                        gauge.threads.lock().unwrap().insert(tid());
+                        gauge.runs.lock().unwrap()[j] += 1;
+                        match body {
+                            1 => {
+                                let t = Instant::now();
+                                while t.elapsed() < Duration::from_micros(50) {
+                                    std::hint::spin_loop();
+                                }
+                            }
+                            2 => std::thread::sleep(Duration::from_millis(1)),
+                            _ => {}
+                        }
+                        gauge.running.fetch_sub(1, Ordering::SeqCst);
+                        if body == 3 {
+                            std::panic::panic_any(j + 1_000_000);
+                        }
+                        j * 7 + 1
+                    })));
+                }
+                for (j, body, h) in handles {
+                    match h.await {
+                        Ok(v) => {
+                            if body == 3 {
+                                viol.lock().unwrap().push(("C17/panic-lost/spawn_blocking".into(), format!("job {j} panicked but its submitter got Ok({v})")));
+                            } else if v != j * 7 + 1 {
+                                viol.lock().unwrap().push(("C17/swapped-result/spawn_blocking".into(), format!("job {j} returned {v}, its own value is {}", j * 7 + 1)));
+                            }
+                        }
+                        Err(JoinError::Panicked(payload)) => {
+                            let got = payload.downcast_ref::<usize>().copied();
+                            if body != 3 {
+                                viol.lock().unwrap().push(("C17/spurious-panic/spawn_blocking".into(), format!("job {j} did not panic but its submitter got a panic")));
+                            } else if got != Some(j + 1_000_000) {
+                                viol.lock().unwrap().push(("C17/swapped-panic/spawn_blocking".into(), format!("job {j}: panic payload {got:?} is not its own")));
+                            }
+                        }
+                        Err(JoinError::Cancelled) => {
+                            viol.lock().unwrap().push(("C17/job-lost/spawn_blocking".into(), format!("job {j} was reported cancelled")));
+                        }
+                    }
+                }
+            });
+            Ok(())
+        }));
+    }
+    for h in hs {
+        match h.join() {
+            Ok(Ok(())) => {}
+            Ok(Err(e)) => return Err(e),
+            Err(_) => return Err("runtime thread panicked".into()),
+        }
+    }
+    let mut viol = std::mem::take(&mut *viol.lock().unwrap());
+    let ctx = format!("{}/limit{}", p.driver, if p.runtimes > 1 { "-shared" } else { "" });
+    for (j, n) in gauge.runs.lock().unwrap().iter().enumerate() {
+        if *n != 1 {
+            viol.push((format!("C17/ran-{}-times/{ctx}", if *n == 0 { "zero".to_string() } else { "several".to_string() }), format!("job {j} ran {n} times")));
+        }
+    }
+    let max = gauge.max.load(Ordering::SeqCst);
+    if max > p.limit {
+        viol.push((format!("C17/running-exceeds-limit/{ctx}"), format!("{max} jobs were running at once with thread_limit {}", p.limit)));
+    }
+    let mut retired = "not-checked";
+    if p.idle_phase {
+        // after the idle timeout the workers have retired (bounded wait, census only)
+        let t0 = Instant::now();
+        loop {
+            if thread_count() <= threads_before {
+                retired = "retired";
+                break;
+            }
+            if t0.elapsed() > Duration::from_millis(p.idle_ms * 20 + 500) {
+                retired = "not-retired";
+                break;
+            }
+            std::thread::sleep(Duration::from_millis(2));
+        }
+        // a later job still runs
+        let ran = Arc::new(AtomicUsize::new(0));
+        let r2 = ran.clone();
+        let mut f = Some(move || {
+            r2.fetch_add(1, Ordering::SeqCst);
+        });
+        let t0 = Instant::now();
+        loop {
+            match pool.dispatch(f.take().unwrap()) {
+                Ok(()) => break,
+                Err(e) => f = Some(e.0),
+            }
+            if t0.elapsed() > Duration::from_secs(2) {
+                break;
+            }
+            std::thread::yield_now();
+        }
+        let t0 = Instant::now();
+        while ran.load(Ordering::SeqCst) == 0 && t0.elapsed() < Duration::from_secs(3) {
+            std::thread::sleep(Duration::from_millis(1));
+        }
+        if ran.load(Ordering::SeqCst) != 1 {
+            viol.push((format!("C17/job-after-retirement-did-not-run/{ctx}"), format!("a job dispatched after the idle period ran {} times", ran.load(Ordering::SeqCst))));
+        }
+    }
+    let sat = if max >= p.limit { "saturated" } else { "below-limit" };
+    let sig = format!("{}|limit{}|rt{}|{}|{}|panic{}", p.driver, p.limit, p.runtimes, sat, retired, p.bodies.contains(&3) as u8);
+    Ok((viol, sig))
+}
+
+pub fn main(args: &Args) {
+    // the jobs' deliberate panics (usize payloads) must not flood stderr
+    vcommon::panics::install_hook();
+    let prev = std::panic::take_hook();
+    std::panic::set_hook(Box::new(move |info| {
+        if !info.payload().is::<usize>() {
+            prev(info)
+        }
+    }));
+    let mut rep = Report::from_args("C17", &args.str("leg", "rt"), args);
+    let drivers: Vec<&'static str> = match args.get("driver") {
+        Some("poll") => vec!["poll"],
+        Some("iour") => vec!["iour"],
+        _ => vec!["iour", "poll"],
+    };
+    let progs: Vec<Prog> = if let Some(path) = args.get("replay") {
+        let text = std::fs::read_to_string(path).expect("replay file");
+        let v: Value = vcommon::serde_json::from_str(&text).expect("json");
+        match Prog::from_json(&v["program"]) {
+            Some(p) => vec![p; args.usize("repeat", 50)],
+            None => {
+                rep.inconclusive("replay file has no program");
+                rep.finish();
+                return;
+            }
+        }
+    } else {
+        let base = Rng::new(args.seed()).fork(args.shard() + 1);
+        (0..args.iters(150, 10000)).map(|i| generate(&mut base.fork(i as u64), drivers[i % drivers.len()])).collect()
+    };
+    for p in progs {
+        if rep.out_of_time() {
+            break;
+        }
+        match panics::catch(|| run_prog(&p)) {
+            Ok(Ok((viol, sig))) => {
+                rep.floor("pool-saturated", sig.contains("saturated"));
+                rep.floor("retirement-seen", sig.contains("|retired|"));
+                if viol.is_empty() {
+                    rep.eval(if sig.contains("saturated") { Some(sig) } else { None });
+                    if rep.want_sample() {
+                        rep.sample(p.to_json());
+                    }
+                } else {
+                    rep.eval(None);
+                    let mut seen = HashSet::new();
+                    for (s, w) in viol {
+                        if seen.insert(s.clone()) {
+                            rep.violation(&s, &w, p.to_json());
+                        }
+                    }
+                }
+            }
+            Ok(Err(e)) => {
+                rep.eval(None);
+                rep.inconclusive(&e);
+            }
+            Err(pi) => {
+                rep.eval(None);
+                match pi.origin() {
+                    panics::Origin::Repo(_) => rep.violation(
+                        &format!("C17/{}/{}", pi.sig(), p.driver),
+                        &format!("panic in compio at {}:{}: {}", pi.file, pi.line, pi.message),
+                        p.to_json(),
+                    ),
+                    o => rep.inconclusive(&format!("harness panic {o:?}: {}", pi.message)),
+                }
+            }
+        }
+    }
+    rep.finish();
 }
